@@ -176,6 +176,28 @@ var c05cells = []c05cell{
 			return []hlref.Field{sfld(hlref.FFileName, "dir"), sfld(hlref.FFileComment, "cmt")}
 		},
 		func(x *c05ctx) bool { return fileHas(filepath.Join(x.w.FileRoot, ".info_dir"), "cmt") }),
+	// the kind of the target is what the file system says, not what a side file left by an earlier entry of that name
+	// (a commented folder renamed away, a file uploaded under the old name) or sent by an uploader claims
+	diskCell("set-comment:file-with-folder-sidecar", []int{hlref.PrivSetFileComment}, hlref.TranSetFileInfo,
+		func(x *c05ctx) []hlref.Field {
+			return []hlref.Field{sfld(hlref.FFileName, "odd.txt"), sfld(hlref.FFileComment, "cmt")}
+		},
+		func(x *c05ctx) bool { return fileHas(filepath.Join(x.w.FileRoot, ".info_odd.txt"), "cmt") }),
+	diskCell("rename:file-with-folder-sidecar", []int{hlref.PrivRenameFile}, hlref.TranSetFileInfo,
+		func(x *c05ctx) []hlref.Field {
+			return []hlref.Field{sfld(hlref.FFileName, "odd.txt"), sfld(hlref.FFileNewName, "odd2.txt")}
+		},
+		func(x *c05ctx) bool { return exists(x.w.FileRoot, "odd2.txt") && !exists(x.w.FileRoot, "odd.txt") }),
+	diskCell("set-comment:folder-with-file-sidecar", []int{hlref.PrivSetFolderComment}, hlref.TranSetFileInfo,
+		func(x *c05ctx) []hlref.Field {
+			return []hlref.Field{sfld(hlref.FFileName, "odd dir"), sfld(hlref.FFileComment, "cmt")}
+		},
+		func(x *c05ctx) bool { return fileHas(filepath.Join(x.w.FileRoot, ".info_odd dir"), "cmt") }),
+	diskCell("rename:folder-with-file-sidecar", []int{hlref.PrivRenameFolder}, hlref.TranSetFileInfo,
+		func(x *c05ctx) []hlref.Field {
+			return []hlref.Field{sfld(hlref.FFileName, "odd dir"), sfld(hlref.FFileNewName, "odd dir 2")}
+		},
+		func(x *c05ctx) bool { return exists(x.w.FileRoot, "odd dir 2") && !exists(x.w.FileRoot, "odd dir") }),
 	diskCell("rename:file", []int{hlref.PrivRenameFile}, hlref.TranSetFileInfo,
 		func(x *c05ctx) []hlref.Field {
 			return []hlref.Field{sfld(hlref.FFileName, "f.txt"), sfld(hlref.FFileNewName, "g.txt")}
@@ -573,6 +595,11 @@ func c05run(rt *rapid.T, cell *c05cell, bits hlref.Access, via ...string) bool {
 		}
 		_ = writeFile(filepath.Join(w.FileRoot, "dir", "Drop Box"), "hidden.txt", []byte("hidden"))
 		_ = writeFile(filepath.Join(w.FileRoot, "dir", "deep"), "d.txt", []byte("deep"))
+		// side files that disagree with the entry they belong to
+		_ = writeFile(w.FileRoot, "odd.txt", []byte("a regular file"))
+		_ = writeFile(w.FileRoot, ".info_odd.txt", hlref.InfoFork{Platform: [4]byte{'A', 'M', 'A', 'C'}, Type: [4]byte{'f', 'l', 'd', 'r'}, Creator: [4]byte{'n', '/', 'a', ' '}, Name: []byte("odd.txt"), Comment: []byte("was a folder's")}.Encode())
+		_ = os.MkdirAll(filepath.Join(w.FileRoot, "odd dir"), 0o755)
+		_ = writeFile(w.FileRoot, ".info_odd dir", hlref.InfoFork{Platform: [4]byte{'A', 'M', 'A', 'C'}, Type: [4]byte{'T', 'E', 'X', 'T'}, Creator: [4]byte{'t', 't', 'x', 't'}, Name: []byte("odd dir"), Comment: []byte("was a file's")}.Encode())
 		// partial uploads somebody left behind
 		_ = writeFile(filepath.Join(w.FileRoot, "other"), "left.bin.incomplete", []byte("first half"))
 		_ = writeFile(filepath.Join(w.FileRoot, "Uploads"), "left.bin.incomplete", []byte("first half"))
